@@ -110,7 +110,11 @@ struct Track {
   handed: Vec<i64>,
   // --- acknack history
   last_base: i64,
+  /// last count seen per submessage kind (RTPS keeps AckNack.count and
+  /// NackFrag.count as separate counters; RustDDS draws both from one counter
+  /// but emits the NACKFRAG message before the ACKNACK built earlier)
   last_count: Option<i32>,
+  last_count_nf: Option<i32>,
 }
 
 impl Track {
@@ -479,13 +483,14 @@ impl World {
     let wi = ctx.ch.index(self.writers.len());
     let written = self.writers[wi].written();
     let can_write = written < p.max_sn;
-    let weights: [u64; 6] = [
+    let weights: [u64; 7] = [
       if can_write { 10 } else { 0 }, // 0 write next
       4,                              // 1 heartbeat
       if written > 0 { 3 } else { 0 }, // 2 resend something
       if written > 0 { 2 } else { 0 }, // 3 gap
       if written > 0 { 1 } else { 0 }, // 4 drop history (advance first)
       if !self.writers[wi].matched { 3 } else { 0 }, // 5 (late) match
+      if p.wide_window && can_write { 3 } else { 0 }, // 6 burst of writes whose DATA is lost at once
     ];
     match ctx.ch.weighted(&weights) {
       0 => self.emit_write(wi, p, ctx),
@@ -510,7 +515,26 @@ impl World {
         ctx.logf(|| format!("w{wi} history now starts at {f}"));
         ctx.count("op.writer_drops_history");
       }
-      _ => self.do_match(wi, ctx),
+      5 => self.do_match(wi, ctx),
+      _ => {
+        // many samples written, every DATA lost on the way: the quick road to
+        // missing-sets wider than one 256-bit window
+        let room = (p.max_sn - written).max(1) as u64;
+        let k = 1 + ctx.ch.draw(room.min(300));
+        for _ in 0..k {
+          let sn = self.writers[wi].written() + 1;
+          self.writers[wi].plans.push(Plan {
+            kind: Kind::Plain,
+            payload: payload_for(wi as u32, sn, 8),
+            src_ticks: None,
+          });
+        }
+        ctx.add("fault.drop", k);
+        ctx.logf(|| format!("w{wi} writes {k} samples, all DATA lost"));
+        if k > 256 {
+          ctx.count("probe.burst_wider_than_256");
+        }
+      }
     }
   }
 
@@ -945,6 +969,7 @@ impl World {
 
       let mut new_base = t.last_base;
       let mut new_count = t.last_count;
+      let mut new_count_nf = t.last_count_nf;
       let mut acknack_set: Option<(i64, Vec<i64>)> = None;
       let mut nackfrags: Vec<(i64, Vec<u32>)> = vec![];
       for s in &subs {
@@ -952,8 +977,13 @@ impl World {
           Sub::AckNack { count, .. } | Sub::NackFrag { count, .. } => *count,
           _ => unreachable!(),
         };
-        // (d) counts grow
-        if let Some(c) = new_count {
+        // (d) counts grow (within each submessage kind)
+        let slot = if matches!(s, Sub::AckNack { .. }) {
+          &mut new_count
+        } else {
+          &mut new_count_nf
+        };
+        if let Some(c) = *slot {
           if count <= c {
             return Err(v(
               "C03/count-not-increasing",
@@ -961,7 +991,7 @@ impl World {
             ));
           }
         }
-        new_count = Some(count);
+        *slot = Some(count);
         match s {
           Sub::AckNack { state, .. } => {
             ctx.count("probe.acknack_checked");
@@ -1009,6 +1039,9 @@ impl World {
             }
             if state.num_bits > 64 {
               ctx.count("probe.acknack_window_over_64");
+            }
+            if state.num_bits == 256 {
+              ctx.count("probe.acknack_window_full_256");
             }
             acknack_set = Some((state.base, state.members.clone()));
           }
@@ -1118,6 +1151,7 @@ impl World {
       let t = &mut self.tracks[ri][wi];
       t.last_base = new_base;
       t.last_count = new_count;
+      t.last_count_nf = new_count_nf;
     }
     Ok(())
   }
@@ -1295,10 +1329,8 @@ impl World {
       ctx.count("probe.handed_over_across_gap");
     }
     self.tracks[ri][wi].handed.push(sn);
-    if self.tracks[ri][wi].ambiguous.remove(&sn) {
-      self.tracks[ri][wi].received.insert(sn);
-      self.tracks[ri][wi].frags_held.remove(&sn);
-    }
+    // (a hand-over does not resolve an ambiguous sample: with two readers on the
+    // topic the sample may have come through the other reader's proxy)
     ctx.state(0x1000_0000_0000 | (ri as u64) << 40 | (wi as u64) << 32 | sn as u64);
     Ok(())
   }
